@@ -17,7 +17,7 @@ func (ex *Exec) safety(st *State, what string, pos token.Pos, goal Term) {
 	}
 	ex.addOb(st, "safety", ex.fn.Name()+".safety."+what, what, pos, goal)
 	// continue under the assumption that the operation did not panic
-	st.assume(goal)
+	st.assumeBranch(goal)
 }
 
 func (ex *Exec) wrapInt(t Term, gt types.Type) Term {
@@ -349,11 +349,13 @@ func (ex *Exec) step(st *State, fr *Frame, in ssa.Instruction) (forks []*State, 
 			if mt, isM := rg.X.Type().Underlying().(*types.Map); isM {
 				m := ex.operand(st, fr, rg.X)
 				pn, ps, vn, vs := w.MapArrays(mt)
-				if kv.Sort == w.SortOf(mt.Key()) {
-					st.assume(Implies(ok, Select(Select(w.heapGet(st.heap, pn, ps), m), kv)))
-					if vv.Sort == w.SortOf(mt.Elem()) {
-						st.assume(Implies(ok, Eq(vv, Select(Select(w.heapGet(st.heap, vn, vs), m), kv))))
-					}
+				key := kv
+				if key.Sort != w.SortOf(mt.Key()) || key.S == "nil" && w.SortOf(mt.Key()) != SRef {
+					key = w.Fresh("next!k", w.SortOf(mt.Key())) // key not bound by the loop: still some present key
+				}
+				st.assume(Implies(ok, And(Not(Eq(m, TNil)), Select(Select(w.heapGet(st.heap, pn, ps), m), key))))
+				if vv.Sort == w.SortOf(mt.Elem()) && vv.S != "nil" {
+					st.assume(Implies(ok, Eq(vv, Select(Select(w.heapGet(st.heap, vn, vs), m), key))))
 				}
 			}
 		}
@@ -426,9 +428,9 @@ func (ex *Exec) step(st *State, fr *Frame, in ssa.Instruction) (forks []*State, 
 			return ex.jump(st, fr, fb)
 		}
 		other := st.clone()
-		st.assume(c)
+		st.assumeBranch(c)
 		st.trace = append(st.trace, fmt.Sprintf("%s: branch taken", w.posStr(x.Cond.Pos())))
-		other.assume(Not(c))
+		other.assumeBranch(Not(c))
 		other.trace = append(other.trace, fmt.Sprintf("%s: branch not taken", w.posStr(x.Cond.Pos())))
 		var out []*State
 		f1, d1 := ex.jump(st, st.top(), tb)
@@ -809,6 +811,11 @@ func (ex *Exec) doReturn(st *State, fr *Frame, res []Term, pos token.Pos) ([]*St
 		return nil, false
 	}
 	ex.returns++
+	if ex.returns <= 6 {
+		// vacuity guard: the assumptions collected along a returning path must not be contradictory
+		ex.obs = append(ex.obs, &Obligation{Name: ex.fn.Name() + ".path.cover", Kind: "cover", Func: ex.fn.String(), Pos: ex.w.posStr(pos),
+			Src: "assumptions along a returning path are satisfiable", Assume: append([]Term(nil), st.pc...), Goal: TFalse, Expect: "sat", Props: ex.fc.Props, Trace: append([]string(nil), st.trace...), branchIdx: copyBranch(st.branch)})
+	}
 	ex.checkPost(st, fr, res, pos)
 	return nil, true
 }
@@ -818,6 +825,32 @@ func (ex *Exec) checkPost(st *State, fr *Frame, res []Term, pos token.Pos) {
 	env.frame = nil
 	bindResults(env, ex.fn.Signature, nil, res)
 	st.trace = append(st.trace, fmt.Sprintf("%s: return", ex.w.posStr(pos)))
+	// ghost assignments performed at a normal return
+	for _, g := range ex.fc.GhostSets {
+		call, ok := g.Exprs[0].(*CCall)
+		if !ok || len(call.Args) != 1 {
+			ex.aborted = fmt.Sprintf("%s:%d: ghostset: left side must be G(x)", g.File, g.Line)
+			return
+		}
+		gd, ok := ex.w.CS.Ghosts[call.Fn]
+		if !ok || len(gd.Params) != 1 {
+			ex.aborted = fmt.Sprintf("%s:%d: ghostset: unknown ghost %s", g.File, g.Line, call.Fn)
+			return
+		}
+		idx, err := env.Eval(call.Args[0])
+		if err != nil {
+			ex.aborted = fmt.Sprintf("%s:%d: ghostset: %v", g.File, g.Line, err)
+			return
+		}
+		val, err := env.Eval(g.Expr)
+		if err != nil {
+			ex.aborted = fmt.Sprintf("%s:%d: ghostset: %v", g.File, g.Line, err)
+			return
+		}
+		as := ArraySort(gd.Params[0], gd.Result)
+		arr := ex.w.heapGet(st.heap, "G_"+call.Fn, as)
+		ex.w.heapSet(st.heap, "G_"+call.Fn, Store(arr, env.coerceTo(idx, gd.Params[0]), val.T))
+	}
 	for i, c := range ex.fc.Ensures {
 		cv, err := env.Eval(c.Expr)
 		if err != nil {
@@ -857,4 +890,12 @@ func bindResults(env *CEnv, sig *types.Signature, names []string, res []Term) {
 
 func isErrorType(t types.Type) bool {
 	return types.Identical(t, types.Universe.Lookup("error").Type())
+}
+
+func copyBranch(m map[int]bool) map[int]bool {
+	out := make(map[int]bool, len(m))
+	for k, v := range m {
+		out[k] = v
+	}
+	return out
 }
